@@ -87,6 +87,7 @@ type State struct {
 	condCache map[string]bool
 	charset  map[string]string
 	preds    []predUse
+	watch    map[*Object]bool // objects reachable from a watched closure's captured variables
 	transcript []string // declarations and assertions of this path, for fallback solvers
 	predDecl map[string]bool
 	maxlen   map[string]int
@@ -130,7 +131,12 @@ func (st *State) get(o *Object) Value {
 	panic("engine: object without content: " + o.String())
 }
 
-func (st *State) set(o *Object, v Value) { st.mem[o] = v }
+func (st *State) set(o *Object, v Value) {
+	if st.watch != nil && st.watch[o] {
+		st.events = append(st.events, Event{Tag: "capwrite:" + o.Name})
+	}
+	st.mem[o] = v
+}
 
 func (st *State) load(p *PtrV) Value {
 	if p.Obj == nil {
